@@ -458,7 +458,8 @@ def bitstruct_grammar(rng):
         rules_chunk = ("seq", tuple(("nt", n) for n, _ in chunk)) if len(chunk) > 1 else ("nt", chunk[0][0])
         groups.append((gname, rules_chunk))
     items = [("nt", g) for g, _ in groups]
-    pre = rng.choice([None, ("lit", b"\x01"), ("lit", "A"), ("regex", r"[a-c]+", True)])
+    # a variable-length regex needs a delimiter outside its alphabet before the (free) bits follow
+    pre = rng.choice([None, ("lit", b"\x01"), ("lit", "A"), ("seq", (("regex", r"[a-c]+", True), ("lit", b"\x7f")))])
     post = rng.choice([None, ("lit", b"\xff\x00"), ("lit", "zz"), ("rep", ("lit", b"\x7f"), 0, 2, None, "{n,m}")])
     seq = ([pre] if pre else []) + items + ([post] if post else [])
     rules["<start>"] = ("seq", tuple(seq)) if len(seq) > 1 else seq[0]
